@@ -59,6 +59,11 @@ let () =
     let md = rd_bool r in let w = rd_z r in let c0 = rd_z r in let c1 = rd_z r in
     let ws = rd_strs r in let ls = rd_list rd_strs r in
     wr_bool (wrap_ok ws w c0 c1 md ls));
+  port "rx_finditer" (fun r ->
+    let i = nat_of_int (rd_int r) in let s = rd_str r in
+    wr_opt (wr_list (fun ((a, e), gs) ->
+      wr_int (int_of_nat a); wr_int (int_of_nat e);
+      wr_list (wr_opt (fun (st, t) -> wr_int (int_of_nat st); wr_str t)) gs)) (rx_finditer i s));
   (* wrap_paragraph_lines with str.split as the splitter *)
   port "wpl_simple" (fun r ->
     let w = rd_z r in let c0 = rd_z r in let c1 = rd_z r in
